@@ -456,7 +456,8 @@ theorem readParameters_written (hdr : Header) (s0 : InStream) (file H pad : Byte
     (hgs : gs.length ≤ 127) (hok : ∀ g ∈ gs, g.name ≠ [] → GroupRecsOK g)
     (hfile : OnFile s0 file) (hfe : file = H ++ (low8N 1 :: 0x50 :: low8N nb :: 84 :: (groupsBytes gs 0 ++ 0 :: pad)))
     (hsmall : file.length + 2 < two31) :
-    ∃ s', readParameters s0 hdr = .ok (({ start := 1, checksum := 0x50, nbBlocks := nb, processor := 84 }, readBack gs 0 []), s') := by
+    ∃ s', readParameters s0 hdr = .ok (({ start := 1, checksum := 0x50, nbBlocks := nb, processor := 84 }, readBack gs 0 []), s')
+      ∧ OnFile s' file := by
   unfold readParameters
   rw [readPrologue_written hdr s0 file H (groupsBytes gs 0 ++ 0 :: pad) nb hH hpa hz hnb hfile hfe]
   have hdrop : file.drop 512 = low8N 1 :: 0x50 :: low8N nb :: 84 :: (groupsBytes gs 0 ++ 0 :: pad) := by
@@ -489,6 +490,8 @@ theorem readParameters_written (hdr : Header) (s0 : InStream) (file H pad : Byte
   have hpos2 : (((s1.adv (groupsBytes gs 0 ++ 0 :: pad) 4).pos + (groupsBytes gs 0).length : Nat) : Int)
       = (((s1.adv (groupsBytes gs 0 ++ 0 :: pad) 4).adv (0 :: pad) (groupsBytes gs 0).length).pos : Int) := by simp; omega
   rw [hpos2, readRecords_terminator _ _ _ pad hso2 rfl]
-  exact ⟨_, rfl⟩
+  refine ⟨_, rfl, ⟨by simpa using hs1f, ?_, ?_⟩⟩
+  · simp only [adv_file]; rw [← hs1]; exact hfile.file_eq
+  · simp only [adv_len]; exact hs1l
 
 end Ezc3d
